@@ -67,6 +67,10 @@ pub fn drive(t: &mut Tracer, tier: &str, seed: u64) {
             hash_event(t, &format!("sm3/corpus{}", i), None, &m);
         }
     }
+    // one message of >= 2^29 bytes (bit length >= 2^32): TLC cannot compress 8.4 M blocks, so the per-block observer hook logs the
+    // chaining values of ~200 seeded block indices plus every block from the last full message block on; the specification checks each
+    // logged compression, the padded tail with its 64-bit length field and the digest (the chain BETWEEN samples is not checked)
+    giant(t, seed, thorough);
     // boundary lengths around multiples of 64 for longer messages
     let g = Gen::new("mix", rng.below(1 << 20));
     let blocks: &[usize] = if thorough { &[16, 33, 64, 100, 255, 256, 1024] } else { &[16, 33] };
@@ -77,5 +81,41 @@ pub fn drive(t: &mut Tracer, tier: &str, seed: u64) {
             let len = (*nb as i64 * 64 + d) as usize;
             hash_event(t, &sess, Some(&g), &full[..len]);
         }
+    }
+}
+
+fn giant(t: &mut Tracer, seed: u64, thorough: bool) {
+    use std::collections::HashSet;
+    let mut rng = Rng(seed ^ 0x6166);
+    let extra = 1 + rng.below(120) as usize;                 // tail of 1..120 bytes: one or two padding blocks
+    let len: usize = (1usize << 29) + 64 * (rng.below(1000) as usize) + extra;
+    let g = Gen::new("mix", rng.below(1 << 20));
+    let nfull = (len / 64) as u64;
+    let mut idx: HashSet<u64> = HashSet::new();
+    for i in [0u64, 1, 2, 63, 64, 65535, 65536, (1 << 22) - 1, 1 << 22, (1 << 23) + 5, nfull - 2, nfull - 1] { idx.insert(i.min(nfull - 1)); }
+    while idx.len() < (if thorough { 400 } else { 120 }) { idx.insert(rng.below(nfull)); }
+    let msg = g.msg(len);
+    let out = guard_plain(|| {
+        gm_sm3::verif::observe(idx.clone(), nfull);
+        let d = gm_sm3::sm3_hash(&msg);
+        (d, gm_sm3::verif::stop())
+    });
+    drop(msg);
+    let sess = "sm3/giant".to_string();
+    let w = |v: &[u32; 8]| -> Vec<u8> { v.iter().flat_map(|x| x.to_be_bytes()).collect() };
+    match out.ok() {
+        Some((digest, log)) => {
+            let mut v_after_full: Option<[u32; 8]> = None;
+            for e in log {
+                if e.index < nfull {
+                    t.emit(&sess, "sm3.block", json!({"prop": "C01", "gen": g.json(), "idx": e.index, "vin": bytes(&w(&e.v_in)), "vout": bytes(&w(&e.v_out)), "outcome": "ok"}));
+                    if e.index == nfull - 1 { v_after_full = Some(e.v_out); }
+                }
+            }
+            let vin = v_after_full.unwrap_or([0u32; 8]);
+            t.emit(&sess, "sm3.final", json!({"prop": "C01", "gen": g.json(), "lhi": len >> 24, "llo": len & 0xff_ffff, "nfull": nfull, "vin": bytes(&w(&vin)),
+                "digest": bytes(&digest[..]), "outcome": "ok"}));
+        }
+        None => { t.emit(&sess, "sm3.final", json!({"prop": "C01", "gen": g.json(), "lhi": len >> 24, "llo": len & 0xff_ffff, "nfull": nfull, "vin": bytes(&[0u8; 32]), "digest": bytes(&[0u8; 32]), "outcome": out.name()})); }
     }
 }
